@@ -416,6 +416,11 @@ def normLon (floor : K → K) (x : K) : K :=
 /-- `if lon.max() > 180: lon = (lon + 180) % 360 - 180` -/
 def setRange (floor : K → K) (gt180 : K → Bool) (l : List K) : List K :=
   if l.any gt180 then l.map (normLon floor) else l
+
+/-- `_set_desired_longitude_range(ds)`: `node_lon`, `edge_lon`, `face_lon` — each variable that is
+    present is tested (`max > 180`) and wrapped ON ITS OWN -/
+def setRangeAll (floor : K → K) (gt180 : K → Bool) (vars : List (List K)) : List (List K) :=
+  vars.map (setRange floor gt180)
 end Lon
 
 /-! ## Format sniffing (`uxarray/io/utils.py::_parse_grid_type`, dispatch in `Grid.from_dataset`) -/
